@@ -960,6 +960,10 @@ func NewEnum(config EnumConfig) *Enum {
 	if gt.values, gt.err = gt.defineEnumValues(config.Values); gt.err != nil {
 		return gt
 	}
+	// Build the look-up tables now: filling them on first use raced when
+	// several requests touched the enum for the first time concurrently.
+	gt.getValueLookup()
+	gt.getNameLookup()
 
 	return gt
 }
